@@ -630,30 +630,32 @@ func c19ResourceGrowth(c *Ctx, srv *server) {
 
 func runC19(c *Ctx) {
 	r := c.R
-	soakDone := make(chan struct{})
-	go c19FailingOnly(c, soakDone)
-	defer func() { <-soakDone }()
-	// a wrapper that starts the server with a descriptor limit (for the silent-client phase)
+	// a wrapper that starts the server with a descriptor limit (for the silent-client phase); c.Env is written here,
+	// before any of the phases that read it runs beside this one
 	if bin := c.Env["VERIF_SERVER_BIN"]; bin != "" {
 		wrap := filepath.Join(c.Env["VERIF_SCRATCH"], "server-fdlimit.sh")
 		if os.WriteFile(wrap, []byte("#!/bin/sh\nulimit -n 170 || exit 97\nexec \""+bin+"\" \"$@\"\n"), 0o755) == nil {
 			c.Env["VERIF_SERVER_BIN_FDLIMIT"] = wrap
 		}
 	}
+	soakDone := make(chan struct{})
+	go c19FailingOnly(c.forkFor(1901), soakDone)
+	defer func() { <-soakDone }()
 	silentDone := make(chan struct{})
-	go c19SilentClients(c, silentDone)
+	go c19SilentClients(c.forkFor(1902), silentDone)
 	defer func() { <-silentDone }()
 	connDone := make(chan struct{})
-	go c19ConnectionFaults(c, connDone)
+	go c19ConnectionFaults(c.forkFor(1903), connDone)
 	defer func() { <-connDone }()
 	docsDone := make(chan struct{})
-	go c19DocsAssets(c, "VERIF_SERVER_BIN", c.N(3, 12), "", docsDone)
+	docsCtx, docsRaceCtx := c.forkFor(1904), c.forkFor(1905)
+	go c19DocsAssets(docsCtx, "VERIF_SERVER_BIN", c.N(3, 12), "", docsDone)
 	defer func() {
 		<-docsDone
 		if c.Thorough {
 			// the same rounds against the server built with the race detector
 			d2 := make(chan struct{})
-			go c19DocsAssets(c, "VERIF_SERVER_RACE_BIN", 6, "server.race19", d2)
+			go c19DocsAssets(docsRaceCtx, "VERIF_SERVER_RACE_BIN", 6, "server.race19", d2)
 			<-d2
 			raceLogs(c, "server.race19")
 		}
